@@ -176,9 +176,14 @@ pub fn prepack_a<A: Alloc, LhsT, RhsT, OutT>(
 ) -> PackedAMatrix<LhsT> {
     let depth_block = depth_block_size::<RhsT>(a.cols(), None);
 
-    let layout = kernel.packed_a_layout(a, a.rows(), depth_block, None);
-    let tail_layout = if !a.cols().is_multiple_of(depth_block) {
-        Some(kernel.packed_a_layout(a, a.rows(), a.cols() % depth_block, None))
+    // Block size used to compute the layout. `depth_block` is zero if the
+    // matrix has no columns. In that case the packed buffer is empty, but the
+    // layout calculations below still need a non-zero block size.
+    let layout_block = depth_block.max(1);
+
+    let layout = kernel.packed_a_layout(a, a.rows(), layout_block, None);
+    let tail_layout = if !a.cols().is_multiple_of(layout_block) {
+        Some(kernel.packed_a_layout(a, a.rows(), a.cols() % layout_block, None))
     } else {
         None
     };
@@ -188,15 +193,16 @@ pub fn prepack_a<A: Alloc, LhsT, RhsT, OutT>(
     // after packing.
     assert_eq!(layout.size() % layout.align(), 0);
 
-    let n_blocks = a.cols() / depth_block;
+    let n_blocks = a.cols() / layout_block;
     let total_size =
         (n_blocks * layout.size()) + tail_layout.as_ref().map(|l| l.size()).unwrap_or(0);
 
     let mut data = PackingBuffer::new();
     let uninit_data = data.alloc_in(alloc, total_size, layout.align());
 
-    for (col_block, block_data) in
-        range_chunks(0..a.cols(), depth_block).zip(uninit_data.chunks_mut(layout.size()))
+    // nb. `layout.size()` is zero if the matrix has no rows.
+    for (col_block, block_data) in range_chunks(0..a.cols(), layout_block)
+        .zip(uninit_data.chunks_mut(layout.size().max(1)))
     {
         kernel.pack_a_block(block_data, a, 0..a.rows(), col_block, None);
     }
@@ -232,9 +238,14 @@ pub fn prepack_b<A: Alloc, LhsT, RhsT, OutT>(
 ) -> PackedBMatrix<RhsT> {
     let depth_block = depth_block_size::<RhsT>(b.rows(), None);
 
-    let layout = kernel.packed_b_layout(depth_block, b.cols(), None);
-    let tail_layout = if !b.rows().is_multiple_of(depth_block) {
-        Some(kernel.packed_b_layout(b.rows() % depth_block, b.cols(), None))
+    // Block size used to compute the layout. `depth_block` is zero if the
+    // matrix has no rows. In that case the packed buffer is empty, but the
+    // layout calculations below still need a non-zero block size.
+    let layout_block = depth_block.max(1);
+
+    let layout = kernel.packed_b_layout(layout_block, b.cols(), None);
+    let tail_layout = if !b.rows().is_multiple_of(layout_block) {
+        Some(kernel.packed_b_layout(b.rows() % layout_block, b.cols(), None))
     } else {
         None
     };
@@ -244,14 +255,15 @@ pub fn prepack_b<A: Alloc, LhsT, RhsT, OutT>(
     // after packing.
     assert_eq!(layout.size() % layout.align(), 0);
 
-    let n_blocks = b.rows() / depth_block;
+    let n_blocks = b.rows() / layout_block;
     let total_size =
         (n_blocks * layout.size()) + tail_layout.as_ref().map(|l| l.size()).unwrap_or(0);
     let mut data = PackingBuffer::new();
     let uninit_data = data.alloc_in(alloc, total_size, layout.align());
 
-    for (row_block, block_data) in
-        range_chunks(0..b.rows(), depth_block).zip(uninit_data.chunks_mut(layout.size()))
+    // nb. `layout.size()` is zero if the matrix has no columns.
+    for (row_block, block_data) in range_chunks(0..b.rows(), layout_block)
+        .zip(uninit_data.chunks_mut(layout.size().max(1)))
     {
         kernel.pack_b_block(block_data, b, row_block, 0..b.cols(), None);
     }
